@@ -637,6 +637,18 @@ def gen_cases(seed, n, focus, strategies=None, max_tasks=8):
             inv = {"target": "//:top", "jobs": rng.choice([3, 4, 5, 8]), "again": False, "stop_early": False, "script": {F["id"]: dict(rng.choice(FAULTS))},
                    "strategy": rng.choice(["blocked-fifo", "blocked-lifo", "blocked-random", "blocked-all", "anywhere"]), "seed": rng.randrange(1 << 30)}
             cases.append({"family": "two-stage-fan-with-failing-sibling", "tasks": gen.dump([F, G] + fan + [top]), "history": [inv]})
+    if focus == "faults":
+        # --stop-early with a failing and succeeding tasks finishing in ONE batch while more work is waiting
+        for rep in range(24 if n < 2000 else 400):
+            k = rng.randint(3, 6)
+            fan = [gen.mk_task(rng.choice(["", "a"]), "b%d" % j, rng.choice(["run_command", "run_experiment"]), par=True) for j in range(k)]
+            waiting = [gen.mk_task("", "w%d" % j, "run_command", par=True) for j in range(rng.randint(1, 4))]
+            top = gen.mk_task("", "top", "group", [t["id"] for t in fan + waiting])
+            jobs = rng.randint(2, max(2, k - 1))
+            failing = rng.sample(fan[:jobs], rng.randint(1, max(1, jobs - 1)))
+            inv = {"target": "//:top", "jobs": jobs, "again": False, "stop_early": True, "script": {t["id"]: dict(rng.choice(FAULTS[:7])) for t in failing},
+                   "strategy": rng.choice(["blocked-all", "blocked-all", "blocked-batch2", "blocked-randbatch", "eager"]), "seed": rng.randrange(1 << 30)}
+            cases.append({"family": "stop-early-batch", "tasks": gen.dump(fan + waiting + [top]), "history": [inv]})
     if focus in ("deps", "cache"):
         for rep in range(6 if n < 2000 else 40):
             # the same dependency listed twice under two spellings: must be rejected, nothing may run
